@@ -7,7 +7,22 @@ import random
 from . import frontfuzz, proto
 
 
-def real_tokens(text):
+def real_tokens(text, limit=10):
+    """the real lexer's tokens; a lexer that does not return within `limit` seconds is the exception `Hang`"""
+    import signal
+    from .dbg import Hang, _alarm
+    old = signal.signal(signal.SIGALRM, _alarm)
+    signal.setitimer(signal.ITIMER_REAL, limit)
+    try:
+        return _real_tokens(text)
+    except Hang:
+        raise RuntimeError("Hang")
+    finally:
+        signal.setitimer(signal.ITIMER_REAL, 0)
+        signal.signal(signal.SIGALRM, old)
+
+
+def _real_tokens(text):
     from hera.lexer import Lexer
     from hera.data import Token
     with proto.Capture() as cap:
